@@ -33,7 +33,13 @@ def regex_job(prop, seed, n, sizes=(2, 9)):
     for i in range(n):
         alpha = rng.sample(rxgen.ALPHA, rng.randint(3, 7))
         size = rng.randint(*sizes)
-        if rng.random() < 0.4:
+        x = rng.random()
+        if x < 0.15:
+            ast = rxgen.substr_node(rng)
+            if rng.random() < 0.4:
+                ast = {"k": "cat", "a": [rxgen.r_lit(rng, [120, 121], 1), ast, rxgen.r_lit(rng, [120, 121], 1)]}
+            entry = "lark_term"
+        elif x < 0.5:
             ast = rxgen.t_node(rng, alpha, size)
             entry = "lark_term"
         else:
@@ -63,4 +69,36 @@ def regex_job(prop, seed, n, sizes=(2, 9)):
         eps.append({"gid": f"rx{i}:{entry}", "mode": prop, "seed": rng.randrange(1 << 30), "steps": rng.randint(6, 16),
                     "gram": g, "cfgs": [{"vocab": voc, "vid": 0, "slices": []}], "w": dict(W_EXACT),
                     "eos_pct": rng.choice([10, 25]), "log_vocab": 1, "init_extra": {"rx": ast, "entry": entry}})
+    return {"episodes": eps}
+
+
+def cfg_job(prop, seed, n, hand_share=0.2):
+    from . import cfggen
+    rng = random.Random(f"{prop}-cfg-{seed}")
+    eps = []
+    tries = 0
+    while len(eps) < n and tries < n * 30:
+        tries += 1
+        if rng.random() < hand_share:
+            name, g = rng.choice(cfggen.HAND)
+        else:
+            g = cfggen.rand_grammar(rng)
+            name = f"g{tries}"
+            if not cfggen.is_reduced(g):
+                continue
+        text = cfggen.lark_text(g)
+        canonical = 1 if rng.random() < 0.3 else 0
+        ab = sorted(set(cfggen.alphabet(g)) | {122})
+        multi = set(cfggen.lang_tokens(g, rng, n_multi=rng.choice([16, 30, 50]), maxlen=rng.choice([3, 4, 5])))
+        for _ in range(8):
+            multi.add(tuple(rng.choice(ab) for _ in range(rng.randint(2, 3))))
+        if rng.random() < 0.3:
+            multi |= {m for m in list(multi)[:3]}  # (duplicates are added below)
+        multi = sorted(multi)
+        dups = [list(m) for m in multi[:2]] if rng.random() < 0.3 else []
+        voc = vocabs.small_exact(ab, [list(m) for m in multi] + dups, canonical)
+        w = dict(W_EXACT)
+        eps.append({"gid": f"cfg:{name}", "mode": prop, "seed": rng.randrange(1 << 30), "steps": rng.randint(5, 12),
+                    "gram": {"kind": "lark", "text": text}, "cfgs": [{"vocab": voc, "vid": 0, "slices": []}], "w": w,
+                    "eos_pct": rng.choice([10, 25]), "log_vocab": 1, "init_extra": {"cfg": g}})
     return {"episodes": eps}
